@@ -38,6 +38,7 @@ type SrvConn struct {
 
 func NewWorld(att p9.Attacher, fs *simfs.FS) *World {
 	w := &World{FS: fs}
+	liveFS = append(liveFS, fs)
 	if att == nil {
 		att = fs
 	}
